@@ -1,7 +1,7 @@
 (* C14 - transfer_pid hands the process over to the command intact (the logic around execvp;
    that execve keeps the PID and setuid/setgid drop privileges is the kernel's contract). *)
-From Coq Require Import List String Bool.
-From RashV Require Import Exec.
+From Coq Require Import List String Bool NArith.
+From RashV Require Import Exec Become.
 Import ListNotations.
 
 Theorem C14_argv_exactly_as_given : forall chdir prog rest,
@@ -19,3 +19,11 @@ Proof. exact no_task_after_transfer. Qed.
 Theorem C14_exec_failure_is_an_error : forall pre p post,
   run (map SNormal pre ++ STransfer p false :: post) = (pre, Failed).
 Proof. exact exec_failure_is_reported. Qed.
+
+(* under become a transfer_pid command never forks: the process that execs is the main one (same PID),
+   carrying the uid and the primary gid of the looked-up passwd entry *)
+Theorem C14_transfer_under_become_keeps_the_process_and_takes_the_users_credentials : forall db cur p u,
+  b_become p = true -> b_is_command p = true -> b_transfer_pid p = true ->
+  lookup_user db (b_user p) = Some u -> u_uid u <> c_uid cur ->
+  path_of db cur p = DropThenExec /\ module_creds db cur p = Some {| c_uid := u_uid u; c_gid := u_gid u |}.
+Proof. exact transfer_under_become_does_not_fork. Qed.
